@@ -51,6 +51,15 @@ def py_decision(ctx, sc):
         else:
             ctx.error(f"{qual}: return value {v!r} is neither False nor a comparison of NIS with the threshold")
     # DISABLED guard: some `return False` is guarded by `<config.innovation_filtering> is None` only
+    # (a local bound once -- `if (t := self.config.innovation_filtering) is None` after UNWALRUS -- is read through)
+    from .. import astpat
+    fn_ = core.find_func(sc.it.p.classes["python"]["ExtendedKalmanFilter"], "remove_innovation")
+    RA_ = astpat.resolver(fn_)[0] if fn_ is not None else (lambda e: e)
+    for rets_ in (call.get("returns", []),):
+        for i_, (v_, path_) in enumerate(rets_):
+            rets_[i_] = (v_, [(RA_(t_) if isinstance(t_, ast.AST) else t_, pol_, x_) for t_, pol_, x_ in path_])
+    disabled = [path for v, path in call.get("returns", []) if isinstance(v, Const) and v.value is False]
+    decisions = [(v, path) for v, path in call.get("returns", []) if isinstance(v, CmpV)]
     ok = False
     for path in disabled:
         if len(path) == 1:
